@@ -465,9 +465,54 @@ func checkRRSelectionGuards(p *Prog, r *Report, ri *rrInfo, rule string) {
 					bad = true
 				}
 			}
+			// the refusing exit: on the edge where the re-armed level is 0 the routine returns no server; it must
+			// not leave the iterator parked mid-rotation with level 0 (index 0, level 0): the next call would step to
+			// index 1 without re-arming and select a zero-weight server, because 0 >= 0. Every path from that edge to a
+			// return passes the iterator reset (index := -1, directly or through the reset routine).
+			for x := range Reach(fn, st, nil, nil) {
+				ifi, ok := x.(*ssa.If)
+				if !ok || !isZeroTest(ifi) {
+					continue
+				}
+				cmp, _ := CanonCmp(BuildExpr(p, ifi.Cond, nil))
+				for k := 0; k < 2; k++ {
+					c := cmp
+					if k == 1 {
+						c = cmp.Negate()
+					}
+					// the edge on which the level (or the maximum it was re-armed from) is known to be <= 0 / == 0
+					if !(c.Op == "==" || ((c.Op == ">=" || c.Op == ">") && negLeading(c))) {
+						continue
+					}
+					other := func(e Edge) bool { return !(e.B == ifi.Block() && e.K == 1-k) }
+					refuses := true
+					for y := range Reach(fn, ifi, nil, other) {
+						if ret, ok := y.(*ssa.Return); ok && !isNilConst(ReturnOperand(ret, 0)) {
+							refuses = false
+						}
+					}
+					if !refuses {
+						continue
+					}
+					ret := ReturnReachableAvoiding(fn, ifi, ri.resetIdx.MayInstr, other)
+					r.Paths++
+					r.Check(ret == nil, rule, tn+": the all-zero exit leaves the iterator reset", p.InstrPos(ifi), "every path from the level == 0 edge to a return passes index := -1",
+						"the routine returns its 'all servers have 0 weight' error with the iterator parked at index 0 / level 0"+posOf(p, ret)+": with two or more servers the NEXT call steps to index 1 without re-arming the level and returns that zero-weight server (0 >= 0) — an all-zero pool answers every other request, and zero-weight servers are selected")
+				}
+			}
 			r.Check(!bad, rule, tn+": level re-armed from the maximum weight is tested before selecting", p.InstrPos(st), "a test of the level precedes every server return after re-arming", "after re-arming the level from the maximum weight a server can be returned without testing the level against 0 (all-zero pools would be served)")
 		}
 	}
+}
+
+// negLeading: the comparison D op 0 has the tracked quantity with a negative coefficient (i.e. it reads "x <= 0" / "x < 0").
+func negLeading(c LinCmp) bool {
+	for _, q := range c.D.norm().P {
+		if q.Sign() > 0 {
+			return false
+		}
+	}
+	return true
 }
 
 func mutantsC01() []Mutant {
